@@ -430,7 +430,7 @@ history_prop!(test_c07, run_c07, replay_c07, C07Monitor, 7, (12000u32, 6usize, 1
      recompute (no open of the path before its rename); distinct by case hash",
     ["any two distinct file writes carry distinct modification times (Distinct clock)", "crash instants are audited by C11, schedules by C06"]);
 
-history_prop!(test_c08, run_c08, replay_c08, C08Monitor, 8, (12000u32, 6usize, 16usize), (150000u32, 12usize, 40usize), OpMix::full(),
+history_prop!(test_c08, run_c08, replay_c08, C08Monitor, 8, (12000u32, 6usize, 16usize), (150000u32, 12usize, 40usize), OpMix { dir_ops: 0, ..OpMix::full() },
     "generated histories (as C01); (a) the set of distinct contents found at ever-declared target paths and in the cache before an invocation is a subset of the \
      set found after it; (b) from the call log, every rename issued by ruler itself has an absent or byte-identical destination and ruler creates/truncates no \
      file outside its directory. Non-trivial = some invocation displaced a file into a cache entry that did not exist before; distinct by case hash",
